@@ -103,7 +103,7 @@ func c07LockSections(r *core.Run) {
 			secs = append(secs, section{fn, c.(ssa.CallInstruction)})
 		}
 	}
-	r.Floor("rmw-lock-pairing(sections)", len(secs), 5)
+	r.Floor("rmw-lock-pairing(sections)", len(secs), 3) // five today; sections may legitimately be merged
 	var shapes []string
 	for _, s := range secs {
 		f := s.fn.SSA
